@@ -36,6 +36,16 @@ const (
 	verifNTurnKinds
 )
 
+// further outcomes that leave batches in the collector when the turn fails (used by
+// the ownership check; numbered after verifNTurnKinds so that older harnesses keep their space)
+const (
+	verifTurnLogNoEmit = verifNTurnKinds + iota // a log, no data batch: validate() fails with a batch held
+	verifTurnLogError                           // a log, then the turn returns an error
+	verifTurnEmitError                          // a data batch, then an error
+	verifTurnEmitPanic                          // a data batch, then a panic
+	verifNTurnKindsExt
+)
+
 type verifPipeState struct {
 	producer  bool
 	turns     []int // outcome per turn; past the end: producer finishes, exchange emits
@@ -90,6 +100,18 @@ func (s *verifPipeState) step(out *OutputCollector) error {
 	case verifTurnError:
 		return errors.New("turn failed")
 	case verifTurnPanic:
+		panic("turn panicked")
+	case verifTurnLogNoEmit:
+		out.ClientLog(LogInfo, "turn log")
+		return nil
+	case verifTurnLogError:
+		out.ClientLog(LogInfo, "turn log")
+		return errors.New("turn failed")
+	case verifTurnEmitError:
+		_ = emit()
+		return errors.New("turn failed")
+	case verifTurnEmitPanic:
+		_ = emit()
 		panic("turn panicked")
 	default:
 		_ = emit()
